@@ -337,6 +337,12 @@ func runC10(cs c10Case) *Outcome {
 		}
 		tr := recs[0].Txs[0]
 		if tr.Pre == nil || tr.Receipt == nil {
+			if tr.Res != nil && containsAny(tr.Res.Log, "insufficient funds", "insufficient fee") {
+				// the sender of this step has given its native coins away earlier in the sequence and cannot pay the fee
+				// any more: the step never reaches the precompile, nothing to compare
+				o.label("step-skipped:sender-cannot-pay-fee")
+				continue
+			}
 			o.dev("", "step %d (%+v): tx not executed: code %d %s", si, st, tr.Res.Code, truncS(tr.Res.Log, 200))
 			return o
 		}
